@@ -19,5 +19,10 @@ PY
 )
 drvs=$(ls lean/ShVerif/Driver/ | sed -n "s/^\(C[0-9]*\)\.lean$/drv_\1/p" | tr "\n" " ")
 (cd lean && lake build $mods $drvs) || echo "setup: lake build reported errors (checks will report them per property)"
-(cd harness && go build -tags verif,all -o ../.work/bin/vh . ) || echo "setup: harness build failed (checks will report it)"
+# one harness binary per property (files are isolated by build tags; a broken one does not stop the others)
+for j in props/C*.json; do
+  id=$(basename "$j" .json); tag=$(echo "$id" | tr 'A-Z' 'a-z')
+  [ -f "harness/$tag.go" ] || continue
+  (cd harness && go build -tags "verif,$tag" -o "../.work/bin/vh-$id" . ) || echo "setup: harness build for $id failed (its check will report it)"
+done
 echo "setup done"
